@@ -80,6 +80,58 @@ class Exec:
         return self.s.wait(pred, timeout, label)
 
 
+def functions_of(*classes, module=None, skip=()):
+    """All plain functions defined in the given classes (None entries ignored; static/class methods unwrapped), plus
+    the module-level functions and the functions of module-level private helper classes of `module` - for line-level
+    scheduling points that follow the code wherever a refactoring moves it."""
+    import types
+    out, seen = [], set()
+
+    def add(f):
+        f = getattr(f, '__func__', f)
+        if isinstance(f, types.FunctionType) and f.__name__ not in skip and id(f.__code__) not in seen:
+            seen.add(id(f.__code__))
+            out.append(f)
+
+    def walk(cls):
+        for k, v in vars(cls).items():
+            if isinstance(v, (staticmethod, classmethod)):
+                add(v.__func__)
+            elif isinstance(v, property):
+                for g in (v.fget, v.fset):
+                    if g is not None:
+                        add(g)
+            elif isinstance(v, type) and v.__module__ == cls.__module__:
+                walk(v)
+            else:
+                add(v)
+    cl = [c for c in classes if c is not None]
+    for c in cl:
+        walk(c)
+    if module is not None:
+        for k, v in vars(module).items():
+            if isinstance(v, types.FunctionType) and v.__module__ == module.__name__:
+                add(v)
+            elif isinstance(v, type) and v.__module__ == module.__name__ and k.startswith('_') and v not in cl:
+                walk(v)
+    return out
+
+
+def find_attr(obj, prefer, pred):
+    """Name of the instance attribute of obj that holds a value satisfying pred: one of the preferred names if it
+    qualifies, else the only qualifying attribute, else None.  Checks look at private state through this so that a
+    rename of a private attribute does not break them (they then skip what they cannot observe)."""
+    try:
+        d = vars(obj)
+    except TypeError:
+        return None
+    for n in prefer:
+        if n in d and pred(d[n]):
+            return n
+    c = [k for k, v in d.items() if pred(v)]
+    return c[0] if len(c) == 1 else None
+
+
 def _thread_name():
     s = vsched.S
     if s is None:
